@@ -14,7 +14,7 @@ const connStruct = "layer4.Connection"
 func init() {
 	register(&property{
 		ID:          "C01",
-		Explanation: "Static decision of the cursor discipline that makes match-and-rewind lossless: (R1) every ConnMatcher.Match invocation is bracketed by freeze/unfreeze on all paths (typestate over the SSA CFG); (R2) freeze saves and unfreeze restores exactly the read cursor; (R3) Connection.Read, evaluated over all orderings of (matching, len(buf), offset) by a finite-predicate path evaluator, drains the buffer before the socket, advances the cursor by what was copied, resets only outside matching and never touches the socket while matching; (R4) prefetch appends exactly the bytes the underlying read returned; (R5) no component copies a Connection by value or constructs one outside the two constructors, Wrap never hands unread bytes to the new connection, and every Wrap argument reads through the receiver; (R6) the router adopts the connection handed on by a non-terminal route; (R7) every handler passes on the connection it got, or Wrap of a conn built on it; (R8) the value delivered to the consumer of a wrapped listener reads through the layer4 connection.",
+		Explanation: "Static decision of the cursor discipline that makes match-and-rewind lossless: (R1) every ConnMatcher.Match invocation is bracketed by freeze/unfreeze on all paths (typestate over the SSA CFG); (R2) freeze saves and unfreeze restores exactly the read cursor; (R3) Connection.Read, evaluated over all orderings of (matching, len(buf), offset) by a finite-predicate path evaluator, drains the buffer before the socket, advances the cursor by what was copied, resets only outside matching and never touches the socket while matching; (R4) prefetch appends exactly the bytes the underlying read returned; (R5) no component copies a Connection by value or constructs one outside the two constructors, Wrap never hands unread bytes to the new connection, and every Wrap argument reads through the receiver; (R6) the router adopts the connection handed on by a non-terminal route; (R7) every handler passes on the connection it got, or Wrap of a conn built on it; (R8) the value delivered to the consumer of a wrapped listener reads through the layer4 connection. Wrap arguments must be built on the receiver itself, not on what its fields hold (its underlying Conn).",
 		NotDecided:  "Equality of the delivered stream with the sent stream for all streams and segmentations (conjunction of these rules plus the semantics of tls.Conn, bufio, io.TeeReader, which are trusted); buffer growth arithmetic beyond R4; handlers outside this module.",
 		Run:         runC01,
 	})
